@@ -28,7 +28,9 @@ RULE = ("one case = one call of an anyio.itertools function or functools.reduce 
         "enumerated exhaustively over the small domain plus Hypothesis-generated longer inputs (ints, strings, "
         "tuples; sync lists, async iterator objects and closable async generators as sources); pair cases run two "
         "iterators side by side in two tasks alternating item by item; tee plans include pulls made in an already "
-        "cancelled scope after which the consumer carries on; "
+        "cancelled scope or cancelled from a loop callback while under way (the consumer carries on afterwards) and "
+        "forks of a consumer (tee() of a tee iterator) at any point; one iterator object passed in several argument "
+        "positions (alias cases); "
         "non-trivial = non-empty input whose result differs from the plain input sequence or that raises; "
         "distinct = distinct canonical JSON of (function, inputs, parameters, source kinds)")
 ASSUMPTIONS = [
